@@ -109,3 +109,194 @@ def v2_spelling_blocks():
         Block("v2.temporal_spellings", "2", b27, v2_temporal_spellings(), ABSENT + one_e),
         Block("v2.env_spellings", "2", b27, ABSENT + one_t, v2_env_spellings()),
     ]
+
+
+# =============================================================================== v3
+
+def v3_base_all():
+    return parts(T.V3_BASE, T.V3)
+
+
+def v3_temporal_spellings():
+    """All 100 fully explicit temporal spellings (X included)."""
+    return parts(T.V3_TEMPORAL, T.V3)
+
+
+def v3_temporal_effective():
+    """48 effective temporal assignments; the value equivalent to X (E:H, RL:U, RC:C) is realised
+    by leaving the metric out, so that absent metrics are exercised too."""
+    dom = {"E": [None, "F", "P", "U"], "RL": [None, "W", "T", "O"], "RC": [None, "R", "U"]}
+    return parts(T.V3_TEMPORAL, dom)
+
+
+def v3_temporal_skeleton(n=12):
+    te = v3_temporal_effective()
+    want = [{}, {"E": "U", "RL": "O", "RC": "U"}, {"E": "F"}, {"RL": "T"}, {"RC": "R"},
+            {"E": "P", "RL": "W", "RC": "R"}, {"E": "U"}, {"RL": "O"}, {"RC": "U"},
+            {"E": "F", "RL": "T", "RC": "U"}, {"E": "P", "RL": "O"}, {"E": "U", "RC": "R"}]
+    return _pick(te, want[:n])
+
+
+def v3_req_all():
+    return parts(["CR", "IR", "AR"], dict((m, ["H", "M", "L"]) for m in ("CR", "IR", "AR")))
+
+
+_V3_MOD = [("MAV", "AV"), ("MAC", "AC"), ("MPR", "PR"), ("MUI", "UI"), ("MS", "S"), ("MC", "C"),
+           ("MI", "I"), ("MA", "A")]
+
+
+def v3_modified_over_complementary_base():
+    """2,592 parts: every explicit assignment of the eight modified metrics, each on top of a base
+    vector in which *every* base metric differs from its modified value."""
+    out = []
+    for frag, d in parts(T.V3_BASE, T.V3):
+        base = {}
+        mod = {}
+        for mm, bm in _V3_MOD:
+            v = d[bm]
+            dom = T.V3[bm]
+            base[bm] = dom[(dom.index(v) + 1) % len(dom)]
+            mod[mm] = v
+        asg = dict(base)
+        asg.update(mod)
+        f = "/".join("%s:%s" % (m, base[m]) for m in T.V3_BASE) + "/" + \
+            "/".join("%s:%s" % (mm, mod[mm]) for mm, _ in _V3_MOD)
+        out.append((f, asg))
+    return out
+
+
+def v3_blocks(tier, minors=("3.0", "3.1")):
+    blocks = []
+    ba = v3_base_all()
+    req = v3_req_all()
+    for fam in minors:
+        blocks.append(Block("v%s.base_x_temporal_spellings" % fam, fam, ba, v3_temporal_spellings()))
+        if tier == "thorough":
+            blocks.append(Block("v%s.inherit" % fam, fam, ba, v3_temporal_effective(), req))
+            blocks.append(Block("v%s.override" % fam, fam, v3_modified_over_complementary_base(),
+                                v3_temporal_effective(), req))
+        else:
+            blocks.append(Block("v%s.inherit" % fam, fam, ba, v3_temporal_skeleton(12), req))
+            blocks.append(Block("v%s.override" % fam, fam, v3_modified_over_complementary_base(),
+                                v3_temporal_skeleton(4), req))
+    return blocks
+
+
+# =============================================================================== v4
+
+def cross(p1, p2):
+    out = []
+    for f1, d1 in p1:
+        for f2, d2 in p2:
+            d = dict(d1)
+            d.update(d2)
+            out.append(((f1 + "/" + f2) if (f1 and f2) else (f1 or f2), d))
+    return out
+
+
+_V4_SAFETY = {"SI": "MSI", "SA": "MSA"}
+_V4_DEFAULT = {"E": "A", "CR": "H", "IR": "H", "AR": "H"}
+V4_EFF_DOM = {
+    "AV": ["N", "A", "L", "P"], "AC": ["L", "H"], "AT": ["N", "P"], "PR": ["N", "L", "H"],
+    "UI": ["N", "P", "A"], "VC": ["H", "L", "N"], "VI": ["H", "L", "N"], "VA": ["H", "L", "N"],
+    "SC": ["H", "L", "N"], "SI": ["S", "H", "L", "N"], "SA": ["S", "H", "L", "N"],
+    "CR": ["H", "M", "L"], "IR": ["H", "M", "L"], "AR": ["H", "M", "L"], "E": ["A", "P", "U"],
+}
+
+
+def v4_part(eff, mode="short"):
+    """One part realising the effective values `eff` (dict metric -> effective value).
+    mode "short":    base metrics carry their values, Safety through MSI/MSA over SI:N/SA:N,
+                     E/CR/IR/AR written only when not the default.
+    mode "override": every value delivered through the M* metric over a base metric that differs;
+                     defaults written as explicit X."""
+    frags, d = [], {}
+
+    def put(m, v):
+        frags.append("%s:%s" % (m, v))
+        d[m] = v
+
+    for m in T.V4:  # spec order
+        if m in eff and m in T.V4_BASE:
+            v = eff[m]
+            if mode == "short":
+                put(m, "N" if v == "S" else v)
+            else:
+                dom = T.V4[m]
+                put(m, dom[(dom.index(v) + 1) % len(dom)] if v != "S" else "H")
+    for m in T.V4:
+        if m in eff and m in _V4_DEFAULT:
+            v = eff[m]
+            if v == _V4_DEFAULT[m]:
+                if mode == "override":
+                    put(m, "X")
+            else:
+                put(m, v)
+    for m in T.V4_BASE:
+        if m in eff:
+            v = eff[m]
+            if mode == "override" or v == "S":
+                put("M" + m, v)
+    return ("/".join(frags), d)
+
+
+def v4_group_parts(metrics, mode="short", only=None):
+    import itertools
+    out = []
+    for vals in itertools.product(*[V4_EFF_DOM[m] for m in metrics]):
+        if only is not None and vals not in only:
+            continue
+        out.append(v4_part(dict(zip(metrics, vals)), mode))
+    return out
+
+
+def v4_skeleton(group, size="wide"):
+    """Representative members of a metric group. "wide": for every equivalence level all of its
+    highest-severity vectors plus two of its lowest members; "mid": first highest-severity vector
+    and one lowest member per level; "min": first highest-severity vector of every level."""
+    from .ref import score4 as S
+    table = {"g1": S.T1, "g2": S.T2, "g36": S.T36, "g4": S.T4}[group]
+    levels = {}
+    for vals, (lvl, dist) in sorted(table.items()):
+        levels.setdefault(lvl, []).append((dist, vals))
+    keep = set()
+    for lvl, mem in levels.items():
+        dmax = max(d for d, _ in mem)
+        tops = sorted(v for d, v in mem if d == 0)
+        low = sorted(v for d, v in mem if d == dmax)
+        if size == "wide":
+            keep |= set(tops) | set([low[0], low[-1]])
+        elif size == "mid":
+            keep |= set([tops[0], low[0]])
+        else:
+            keep.add(tops[0])
+    return keep
+
+
+V4_G = {"g1": ("AV", "PR", "UI"), "g2": ("AC", "AT"), "g36": ("VC", "VI", "VA", "CR", "IR", "AR"),
+        "g4": ("SC", "SI", "SA"), "g5": ("E",)}
+
+
+def v4_blocks(tier, mode="short", size=None):
+    """thorough+short: the full 15,116,544-point product. Otherwise two blocks: the 729-point group
+    {VC,VI,VA,CR,IR,AR} free over a skeleton of the other groups, and all other groups free at
+    once over a skeleton of that group. `size` = (skeleton size of the small groups, of g36)."""
+    tag = "v4.%s." % mode
+    if tier == "thorough" and mode == "short":
+        A = v4_group_parts(("AV", "AC", "AT", "PR", "UI"))
+        B = v4_group_parts(("VC", "VI", "VA", "SC", "SI", "SA"))
+        C = v4_group_parts(("E", "CR", "IR", "AR"))
+        return [Block(tag + "full", "4.0", A, B, C)]
+    s_small, s_36 = size or ("wide", "wide")
+    full = dict((g, v4_group_parts(V4_G[g], mode)) for g in V4_G)
+    skel = dict((g, v4_group_parts(V4_G[g], mode, v4_skeleton(g, s_36 if g == "g36" else s_small)))
+                for g in ("g1", "g2", "g36", "g4"))
+    skel["g5"] = full["g5"]
+    sel = lambda g, free: full[g] if g in free else skel[g]
+
+    def blk(name, free):
+        return Block(tag + name, "4.0", cross(sel("g1", free), sel("g2", free)), sel("g36", free),
+                     cross(sel("g4", free), sel("g5", free)))
+
+    return [blk("skeleton_x_g36_free", ("g36",)),
+            blk("g1_g2_g4_g5_free_x_g36_skeleton", ("g1", "g2", "g4", "g5"))]
